@@ -266,11 +266,31 @@ def check_sources(tier='quick', seed=0):
                     tx[:, a:tx.shape[1] - 1 + a, b:tx.shape[2] - 1 + b] |= touched
                 if np.abs(sf.fx[~tx]).max(initial=0) > 0:
                     return dict(reproduced=True, cases=cases, clause='an x-edge of an untouched cell carries a source contribution', electrodes=w.tolist())
-        # point sources
-        for k in range(8):
+        # point sources: random positions, and every stratum of a direction (first node, first half cell, first cell centre, interior node,
+        # interior, last cell centre, last half cell)
+        def strata(nodes):
+            cc = 0.5 * (nodes[1:] + nodes[:-1])
+            return [nodes[0], 0.5 * (nodes[0] + cc[0]), cc[0], nodes[2], 0.3 * nodes[2] + 0.7 * nodes[3], cc[-1], 0.5 * (cc[-1] + nodes[-1])]
+        pts = [rnd() for _ in range(8)]
+        sx_, sy_, sz_ = strata(nx), strata(ny), strata(nz)
+        for a in range(7):
+            pts += [np.array([sx_[a], sy_[(a + 2) % 7], sz_[(a + 4) % 7]]), np.array([sx_[a], sy_[a], sz_[a]])]
+        for kp, p in enumerate(pts):
             cases += 1
-            p = rnd()
             az, el = rng.uniform(-180, 180), rng.uniform(-90, 90)
+            if kp >= 8:
+                az, el = [(0, 0), (90, 0), (0, 90), (35, 20)][kp % 4]
+            vf = fields.get_source_field(grid, emg3d.TxElectricPoint((p[0], p[1], p[2], az, el)), None)
+            # locality: a point source only touches edges of the cell that contains it and of its direct neighbours
+            for c, arr in (('x', vf.fx), ('y', vf.fy), ('z', vf.fz)):
+                nz_ = np.argwhere(arr != 0)
+                for I in nz_:
+                    for d_, (nodes_d, pd) in enumerate(((nx, p[0]), (ny, p[1]), (nz, p[2]))):
+                        icell = int(np.clip(np.searchsorted(nodes_d, pd, side='right') - 1, 0, len(nodes_d) - 2))
+                        if abs(int(I[d_]) - icell) > 2:
+                            return dict(reproduced=True, cases=cases, clause='a point source touches only edges of its own and the neighbouring cells',
+                                        position=p.tolist(), az=az, el=el, component=c, edge=[int(v) for v in I], value=float(arr[tuple(I)]),
+                                        how='contracts.c0910_concrete.check_sources')
             sf = fields.get_source_field(grid, emg3d.TxElectricPoint((p[0], p[1], p[2], az, el), strength=2.0), 1.0)
             sums = np.array([sf.fx.sum(), sf.fy.sum(), sf.fz.sum()]) / (2.0 * -sf.smu0)
             if np.abs(sums - electrodes.rotation(az, el)).max() > 1e-10:
